@@ -47,6 +47,12 @@ type c13member struct {
 	rebalancing            bool
 	closeInRebalance       bool
 	rebalanceAfterShutdown bool
+	lastPubT               int64
+	pubs                   int
+	quietClose             bool // Close() arrived with no rebalance under way and no notification recent enough to have one pending
+	shutStopN              int  // quietClose: the stream stop that belongs to the shutdown itself
+	pubAfterStop           int  // first notification published after it
+	apiRebalance           bool // GET /rebalance was called after Close()
 }
 
 func checkC13(run *Run, res *Result) {
@@ -106,6 +112,9 @@ func checkC13Rules(run *Run, res *Result) {
 			switch e.S {
 			case "BeforeStreamStop":
 				stopN[e.M] = e.N
+				if mm := get(e.M); mm.closeN > 0 && mm.quietClose && mm.shutStopN == 0 {
+					mm.shutStopN = e.N
+				}
 			case "AfterStreamStop":
 				streamClosedWindow[e.M] = true
 			case "AfterStreamStart":
@@ -118,6 +127,13 @@ func checkC13Rules(run *Run, res *Result) {
 				get(e.M).ackPos, get(e.M).nondocPos = map[int]uint64{}, map[int]uint64{}
 			case "BeforeRebalanceStart":
 				get(e.M).rebalancing = true
+				if mm := get(e.M); mm.shutStopN > 0 && mm.pubAfterStop > 0 && !mm.apiRebalance {
+					// nothing was pending when Close() arrived and nothing was announced until the shutdown began to stop the
+					// streams: this rebalance stems from a notification published afterwards
+					res.violate("C13", "R5-notification-acted-on-during-stream-stop", e.N, "plain",
+						"member %d: Close() (event #%d) arrived with no rebalance pending; the shutdown began to stop the streams at event #%d; the membership notification published after that (event #%d) still started a rebalance on the closing client",
+						e.M, mm.closeN, mm.shutStopN, mm.pubAfterStop)
+				}
 				if mm := get(e.M); mm.closeN > 0 && !mm.closed {
 					mm.rebalanceAfterShutdown = true // a pending rebalance timer fires while the shutdown is in progress
 				}
@@ -128,6 +144,20 @@ func checkC13Rules(run *Run, res *Result) {
 				}
 			case "AfterRebalanceEnd":
 				get(e.M).rebalancing = false
+			}
+		case journal.KPublish:
+			if e.S != "membershipChanged" {
+				continue
+			}
+			mm := get(e.M)
+			mm.lastPubT = e.T
+			mm.pubs++
+			if mm.closeN > 0 && mm.shutStopN == 0 {
+				mm.quietClose = false // announced before the shutdown reached the stream stop: may legitimately be in progress
+			}
+			if mm.shutStopN > 0 && mm.pubAfterStop == 0 {
+				mm.pubAfterStop = e.N
+				res.probe("notification-during-shutdown-stream-stop")
 			}
 		case journal.KSReq:
 			if e.S2 == "ok" {
@@ -230,11 +260,17 @@ func checkC13Rules(run *Run, res *Result) {
 			if e.S == "Commit" || e.S == "CommitInside" {
 				openCommits[e.M]++
 			}
+			if e.S == "api:GET /rebalance" {
+				if mm := get(e.M); mm.closeN > 0 {
+					mm.apiRebalance = true // the API's own trigger does not go through the bus
+				}
+			}
 			if e.S != "Close" {
 				continue
 			}
 			mm := get(e.M)
 			mm.closeN, mm.closeT = e.N, e.T
+			mm.quietClose = !mm.rebalancing && (mm.pubs == 0 || mm.lastPubT+cfg.RebalanceDelay+1_000_000_000 < e.T)
 			mm.savesAtClose = openCommits[e.M]
 			mm.closeInRebalance = mm.rebalancing
 			switch {
